@@ -1,5 +1,6 @@
 import BM.Basic
 import BM.Url
+import BM.Unicode
 /-
   Model of bluemonday's `Policy` (policy.go) and of its builder API.
   Go maps are association lists with map semantics (`Map.set` replaces, `Map.get?`
@@ -137,10 +138,8 @@ inductive BuilderOp where
   | allowElementsContent (names : List Bytes)
   | allowUnsafe (b : Bool)
 
-/-- Go's `strings.ToLower` on builder arguments.  The harness only ever passes names whose
-    non-ASCII part is unaffected by Unicode lower-casing, or passes the already-lowered
-    form; the Unicode table is not modelled (see DESIGN §8). -/
-def toLowerName (s : Bytes) : Bytes := lowerAscii s
+/-- Go's `strings.ToLower` on builder arguments (Unicode-aware, on the regenerated tables) -/
+def toLowerName (s : Bytes) : Bytes := toLowerGo s
 
 def addAttrRule (rules : AttrRules) (attr : Bytes) (ap : AttrPolicy) : AttrRules :=
   rules.update attr [] (· ++ [ap])
